@@ -641,7 +641,8 @@ def _lint(ctx, prop):
         aux1, naux1 = angles.rule_AUX1(ctx, files)
         cp2, ncp2 = lint.rule_CP2(ctx, files)
         swp, nswp = lint.rule_SWP1(ctx, files)
-        out += [sw, ov, n1, d3, cp, cp2, nb, zq, prt, tw, ang, one, aux1, swp]
+        sc1, nsc1 = lint.rule_SC1(ctx, files)
+        out += [sw, ov, n1, d3, cp, cp2, nb, zq, prt, tw, ang, one, aux1, swp, sc1]
     return out
 
 
